@@ -30,6 +30,8 @@ pub struct VmDepths {
     pub go_sub_address_stack: usize,
     pub stacktrace: usize,
     pub has_function_result: bool,
+    /// function results waiting to be picked up by their callers
+    pub function_results: usize,
     pub last_error_code: Option<i32>,
     pub has_last_error_address: bool,
 }
